@@ -1,4 +1,5 @@
 import Ypv.Model.Keyword
+import Ypv.Lemmas.Compare
 /-!
 # Lemmas for the keyword searches: the best-so-far invariant of the `max`/`min` scan
 
@@ -197,5 +198,531 @@ theorem mmScan_inv (better : Method) (le : Scalar → Scalar → Bool) :
     obtain ⟨st2, hs2, hi2⟩ := mmScan_inv better le R (P ++ [c]) st1 (by rw [← hsplit]; exact ho) hi1
     refine ⟨st2, ?_, by rw [hsplit]; exact hi2⟩
     unfold mmScan; rw [hs1]; exact hs2
+
+/-! ## Python `==` on scalars (`pyEq`) is an equivalence relation -/
+
+theorem pyEq_num {a b : Scalar} {m1 e1 m2 e2 : Int} (ha : pyEq.typedKey a = some (m1, e1))
+    (hb : pyEq.typedKey b = some (m2, e2)) : pyEq a b = (decCmp m1 e1 m2 e2 == .eq) := by
+  unfold pyEq; rw [ha, hb]
+
+theorem pyEq_plain {a b : Scalar} (ha : pyEq.typedKey a = none) (hb : pyEq.typedKey b = none) :
+    pyEq a b = (a == b) := by
+  unfold pyEq; rw [ha, hb]
+
+theorem pyEq_num_plain {a b : Scalar} {p : Int × Int} (ha : pyEq.typedKey a = some p)
+    (hb : pyEq.typedKey b = none) : pyEq a b = false := by
+  unfold pyEq; rw [ha, hb]
+
+theorem pyEq_plain_num {a b : Scalar} {p : Int × Int} (ha : pyEq.typedKey a = none)
+    (hb : pyEq.typedKey b = some p) : pyEq a b = false := by
+  unfold pyEq; rw [ha, hb]
+
+theorem pyEq_refl (a : Scalar) : pyEq a a = true := by
+  cases h : pyEq.typedKey a with
+  | none => rw [pyEq_plain h h]; simp
+  | some p => obtain ⟨m, e⟩ := p; rw [pyEq_num h h, decCmp_refl]; rfl
+
+theorem pyEq_symm (a b : Scalar) : pyEq a b = pyEq b a := by
+  cases ha : pyEq.typedKey a with
+  | none =>
+    cases hb : pyEq.typedKey b with
+    | none => rw [pyEq_plain ha hb, pyEq_plain hb ha, Bool.eq_iff_iff, beq_iff_eq, beq_iff_eq]; exact eq_comm
+    | some q => rw [pyEq_plain_num ha hb, pyEq_num_plain hb ha]
+  | some p =>
+    obtain ⟨m1, e1⟩ := p
+    cases hb : pyEq.typedKey b with
+    | none => rw [pyEq_num_plain ha hb, pyEq_plain_num hb ha]
+    | some q =>
+      obtain ⟨m2, e2⟩ := q
+      rw [pyEq_num ha hb, pyEq_num hb ha, decCmp_eq_eq, decCmp_eq_eq, Bool.and_comm]
+
+theorem pyEq_trans (a b c : Scalar) (h1 : pyEq a b = true) (h2 : pyEq b c = true) : pyEq a c = true := by
+  cases hb : pyEq.typedKey b with
+  | none =>
+    cases ha : pyEq.typedKey a with
+    | some p => rw [pyEq_num_plain ha hb] at h1; cases h1
+    | none =>
+      cases hc : pyEq.typedKey c with
+      | some p => rw [pyEq_plain_num hb hc] at h2; cases h2
+      | none =>
+        rw [pyEq_plain ha hb] at h1; rw [pyEq_plain hb hc] at h2; rw [pyEq_plain ha hc]
+        have e1 : a = b := by simpa using h1
+        have e2 : b = c := by simpa using h2
+        simp [e1, e2]
+  | some q =>
+    obtain ⟨m2, e2⟩ := q
+    cases ha : pyEq.typedKey a with
+    | none => rw [pyEq_plain_num ha hb] at h1; cases h1
+    | some p =>
+      obtain ⟨m1, e1⟩ := p
+      cases hc : pyEq.typedKey c with
+      | none => rw [pyEq_num_plain hb hc] at h2; cases h2
+      | some r =>
+        obtain ⟨m3, e3⟩ := r
+        rw [pyEq_num ha hb, beq_iff_eq] at h1; rw [pyEq_num hb hc, beq_iff_eq] at h2
+        rw [pyEq_num ha hc, beq_iff_eq]
+        exact decCmp_eq_trans _ _ _ _ _ _ h1 h2
+
+/-- Equal values have the same equal values. -/
+theorem pyEq_congr_left {a b : Scalar} (h : pyEq a b = true) (c : Scalar) : pyEq a c = pyEq b c := by
+  rw [Bool.eq_iff_iff]
+  constructor
+  · intro h'; exact pyEq_trans b a c (by rw [pyEq_symm]; exact h) h'
+  · intro h'; exact pyEq_trans a b c h h'
+
+
+/-! ## `unique` / `distinct`: the groups built by `groupInsert` -/
+
+/-- A member that takes part in `unique`/`distinct`: its address and its value. -/
+abbrev Keyed := Addr × Scalar
+
+/-- The `seen_values` table after the members `ms`, starting from `g`. -/
+def groupsOf (g : Groups) (ms : List Keyed) : Groups := ms.foldl (fun g m => groupInsert g m.2 m.1) g
+
+theorem groupsOf_nil (g : Groups) : groupsOf g [] = g := rfl
+
+theorem groupsOf_cons (g : Groups) (m : Keyed) (ms : List Keyed) :
+    groupsOf g (m :: ms) = groupsOf (groupInsert g m.2 m.1) ms := rfl
+
+/-- The first group collects every later member equal to its key; the others never see them. -/
+theorem groupsOf_cons_group (k : Scalar) : ∀ (ms : List Keyed) (as : List Addr) (g : Groups),
+    groupsOf ((k, as) :: g) ms =
+      (k, as ++ (ms.filter (fun m => pyEq k m.2)).map (·.1)) :: groupsOf g (ms.filter (fun m => !pyEq k m.2))
+  | [], as, g => by simp [groupsOf]
+  | m :: ms, as, g => by
+    rw [groupsOf_cons]
+    cases h : pyEq k m.2
+    · have : groupInsert ((k, as) :: g) m.2 m.1 = (k, as) :: groupInsert g m.2 m.1 := by
+        simp [groupInsert, h]
+      rw [this, groupsOf_cons_group k ms as (groupInsert g m.2 m.1)]
+      simp [h, groupsOf_cons]
+    · have : groupInsert ((k, as) :: g) m.2 m.1 = (k, as ++ [m.1]) :: g := by
+        simp [groupInsert, h]
+      rw [this, groupsOf_cons_group k ms (as ++ [m.1]) g]
+      simp [h]
+
+/-- "Nub" form of the table: the first member opens the first group, which takes all members equal
+to it; the remaining groups are those of the remaining members. -/
+theorem groupsOf_nil_cons (m : Keyed) (ms : List Keyed) :
+    groupsOf [] (m :: ms) =
+      (m.2, m.1 :: (ms.filter (fun x => pyEq m.2 x.2)).map (·.1)) :: groupsOf [] (ms.filter (fun x => !pyEq m.2 x.2)) := by
+  rw [groupsOf_cons]
+  have : groupInsert [] m.2 m.1 = [(m.2, [m.1])] := rfl
+  rw [this, groupsOf_cons_group]; rfl
+
+/-- How often (under Python `==`) the value `v` occurs among the members. -/
+def occurrences (ms : List Keyed) (v : Scalar) : Nat := (ms.filter (fun m => pyEq v m.2)).length
+
+theorem occ_head (m : Keyed) (rest : List Keyed) :
+    occurrences (m :: rest) m.2 = 1 + (rest.filter (fun x => pyEq m.2 x.2)).length := by
+  simp [occurrences, pyEq_refl]; omega
+
+theorem occ_of_eq {v w : Scalar} (h : pyEq v w = true) (ms : List Keyed) : occurrences ms w = occurrences ms v := by
+  unfold occurrences
+  congr 1
+  apply List.filter_congr
+  intro x _
+  exact (pyEq_congr_left h x.2).symm
+
+theorem occ_rest (m : Keyed) (rest : List Keyed) (y : Keyed) (hy : pyEq m.2 y.2 = false) :
+    occurrences (m :: rest) y.2 = occurrences (rest.filter (fun x => !pyEq m.2 x.2)) y.2 := by
+  have hym : pyEq y.2 m.2 = false := by rw [pyEq_symm]; exact hy
+  simp only [occurrences, List.filter_cons, hym, Bool.false_eq_true, if_false, List.filter_filter]
+  congr 1
+  apply List.filter_congr
+  intro x _
+  cases hx : pyEq y.2 x.2
+  · simp
+  · have : pyEq m.2 x.2 = false := by
+      cases hmx : pyEq m.2 x.2
+      · rfl
+      · have := pyEq_trans m.2 x.2 y.2 hmx (by rw [pyEq_symm]; exact hx)
+        rw [hy] at this; cases this
+    simp [this]
+
+/-- The members of the groups whose size satisfies `p`, group by group. -/
+def groupSel (p : Nat → Bool) (g : Groups) : List Addr := (g.filter (fun grp => p grp.2.length)).flatMap (·.2)
+
+theorem groupSel_cons (p : Nat → Bool) (k : Scalar) (as : List Addr) (g : Groups) :
+    groupSel p ((k, as) :: g) = (if p as.length then as else []) ++ groupSel p g := by
+  unfold groupSel
+  cases h : p as.length <;> simp [h]
+
+/-- **unique, inverted or not** — the members of the groups of a size satisfying `p` are, up to
+order, the members whose value occurs a number of times satisfying `p`. -/
+theorem groupSel_perm (p : Nat → Bool) : ∀ (n : Nat) (ms : List Keyed), ms.length ≤ n →
+    List.Perm (groupSel p (groupsOf [] ms)) ((ms.filter (fun m => p (occurrences ms m.2))).map (·.1))
+  | _, [], _ => by simp [groupSel, groupsOf]
+  | 0, _ :: _, h => by simp at h
+  | n + 1, m :: rest, hlen => by
+    have hR : (rest.filter (fun x => !pyEq m.2 x.2)).length ≤ n := by
+      have := List.length_filter_le (fun x : Keyed => !pyEq m.2 x.2) rest
+      simp only [List.length_cons] at hlen; omega
+    have ih := groupSel_perm p n _ hR
+    rw [groupsOf_nil_cons, groupSel_cons]
+    -- the right-hand side, split into the class of `m` and the rest
+    have hq_rest : ∀ y ∈ rest.filter (fun x => !pyEq m.2 x.2),
+        p (occurrences (m :: rest) y.2) = p (occurrences (rest.filter (fun x => !pyEq m.2 x.2)) y.2) := by
+      intro y hy
+      have : pyEq m.2 y.2 = false := by simpa using (List.mem_filter.mp hy).2
+      rw [occ_rest m rest y this]
+    have hq_E : ∀ y ∈ rest.filter (fun x => pyEq m.2 x.2),
+        p (occurrences (m :: rest) y.2) = p (1 + (rest.filter (fun x => pyEq m.2 x.2)).length) := by
+      intro y hy
+      have : pyEq m.2 y.2 = true := (List.mem_filter.mp hy).2
+      rw [occ_of_eq this, occ_head]
+    have hsplit : List.Perm (rest.filter (fun x => p (occurrences (m :: rest) x.2)))
+        ((rest.filter (fun x => pyEq m.2 x.2)).filter (fun x => p (occurrences (m :: rest) x.2)) ++
+         (rest.filter (fun x => !pyEq m.2 x.2)).filter (fun x => p (occurrences (m :: rest) x.2))) := by
+      have := List.filter_append_perm (fun x : Keyed => pyEq m.2 x.2)
+        (rest.filter (fun x => p (occurrences (m :: rest) x.2)))
+      refine this.symm.trans ?_
+      simp only [List.filter_filter]
+      apply List.Perm.of_eq
+      congr 1 <;> (apply List.filter_congr; intro x _; simp [Bool.and_comm])
+    rw [List.filter_congr hq_rest] at hsplit
+    rw [List.filter_congr hq_E] at hsplit
+    have hl : (m.1 :: (rest.filter (fun x => pyEq m.2 x.2)).map (·.1)).length
+        = 1 + (rest.filter (fun x => pyEq m.2 x.2)).length := by
+      simp only [List.length_cons, List.length_map]; omega
+    rw [hl]
+    simp only [List.filter_cons, occ_head]
+    cases hp : p (1 + (rest.filter (fun x => pyEq m.2 x.2)).length)
+    · simp only [hp, Bool.false_eq_true, if_false, List.nil_append] at hsplit ⊢
+      have e : ∀ l : List Keyed, l.filter (fun _ => false) = [] := fun l => by simp
+      rw [e, List.nil_append] at hsplit
+      exact ih.trans ((hsplit.map (·.1)).symm)
+    · simp only [hp, if_true, List.map_cons, List.cons_append] at hsplit ⊢
+      have e : ∀ l : List Keyed, l.filter (fun _ => true) = l := fun l => by simp
+      rw [e] at hsplit
+      refine List.Perm.cons _ ?_
+      refine (List.Perm.append_left _ ih).trans ?_
+      rw [← List.map_append]
+      exact (hsplit.map (·.1)).symm
+/-- **unique** — the members of the singleton groups are exactly the members whose value occurs
+once, in document order. -/
+theorem groupSel_once : ∀ (n : Nat) (ms : List Keyed), ms.length ≤ n →
+    groupSel (fun k => k == 1) (groupsOf [] ms) = (ms.filter (fun m => occurrences ms m.2 == 1)).map (·.1)
+  | _, [], _ => by simp [groupSel, groupsOf]
+  | 0, _ :: _, h => by simp at h
+  | n + 1, m :: rest, hlen => by
+    have hR : (rest.filter (fun x => !pyEq m.2 x.2)).length ≤ n := by
+      have := List.length_filter_le (fun x : Keyed => !pyEq m.2 x.2) rest
+      simp only [List.length_cons] at hlen; omega
+    have ih := groupSel_once n _ hR
+    rw [groupsOf_nil_cons, groupSel_cons, ih]
+    have hq_rest : ∀ y ∈ rest.filter (fun x => !pyEq m.2 x.2),
+        (occurrences (rest.filter (fun x => !pyEq m.2 x.2)) y.2 == 1) = (occurrences (m :: rest) y.2 == 1) := by
+      intro y hy
+      have : pyEq m.2 y.2 = false := by simpa using (List.mem_filter.mp hy).2
+      rw [occ_rest m rest y this]
+    have hq : ∀ y ∈ rest, (occurrences (m :: rest) y.2 == 1) =
+        ((occurrences (m :: rest) y.2 == 1) && !pyEq m.2 y.2) := by
+      intro y hy
+      cases hmy : pyEq m.2 y.2
+      · simp
+      · have hyE : y ∈ rest.filter (fun x => pyEq m.2 x.2) := List.mem_filter.mpr ⟨hy, hmy⟩
+        have hpos : 0 < (rest.filter (fun x => pyEq m.2 x.2)).length := List.length_pos_of_mem hyE
+        rw [occ_of_eq hmy, occ_head]
+        have : (1 + (rest.filter (fun x => pyEq m.2 x.2)).length == 1) = false := by
+          rw [beq_eq_false_iff_ne]; omega
+        rw [this]; rfl
+    rw [List.filter_congr hq_rest, List.filter_filter]
+    have hl : (m.1 :: (rest.filter (fun x => pyEq m.2 x.2)).map (·.1)).length
+        = 1 + (rest.filter (fun x => pyEq m.2 x.2)).length := by
+      simp only [List.length_cons, List.length_map]; omega
+    rw [hl]
+    simp only [List.filter_cons, occ_head]
+    rw [← List.filter_congr hq]
+    cases hE : rest.filter (fun x => pyEq m.2 x.2) with
+    | nil => simp
+    | cons y ys =>
+      have : ¬ (1 + (y :: ys).length = 1) := by simp
+      simp
+
+/-- The members none of whose predecessors (nor any of the values `pre`) has an equal value. -/
+def firstsFrom (pre : List Scalar) : List Keyed → List Addr
+  | [] => []
+  | m :: rest =>
+    if pre.any (fun v => pyEq v m.2) then firstsFrom (pre ++ [m.2]) rest
+    else m.1 :: firstsFrom (pre ++ [m.2]) rest
+
+/-- **distinct** — the heads of the groups are the members without an equal predecessor, in
+document order. -/
+theorem group_heads : ∀ (ms : List Keyed) (pre : List Scalar),
+    (groupsOf [] (ms.filter (fun m => !pre.any (fun v => pyEq v m.2)))).filterMap (fun grp => grp.2.head?)
+      = firstsFrom pre ms
+  | [], _ => by simp [groupsOf, firstsFrom]
+  | m :: rest, pre => by
+    have ih := group_heads rest (pre ++ [m.2])
+    unfold firstsFrom
+    cases hm : pre.any (fun v => pyEq v m.2)
+    · simp only [List.filter_cons, hm, Bool.not_false, if_true, Bool.false_eq_true, if_false]
+      rw [groupsOf_nil_cons, List.filterMap_cons]
+      simp only [List.head?_cons, List.filter_filter]
+      have e : rest.filter (fun a => !pyEq m.2 a.2 && !pre.any fun v => pyEq v a.2)
+          = rest.filter (fun x => !(pre ++ [m.2]).any fun v => pyEq v x.2) := by
+        apply List.filter_congr
+        intro x _
+        simp [List.any_append, Bool.and_comm]
+      rw [e, ih]
+    · simp only [List.filter_cons, hm, Bool.not_true, Bool.false_eq_true, if_false, if_true]
+      have e : rest.filter (fun x => !pre.any fun v => pyEq v x.2)
+          = rest.filter (fun x => !(pre ++ [m.2]).any fun v => pyEq v x.2) := by
+        apply List.filter_congr
+        intro x _
+        have : pyEq m.2 x.2 = true → pre.any (fun v => pyEq v x.2) = true := by
+          intro hx
+          obtain ⟨v, hv, hvm⟩ := List.any_eq_true.mp hm
+          exact List.any_eq_true.mpr ⟨v, hv, pyEq_trans v m.2 x.2 hvm hx⟩
+        cases hx : pyEq m.2 x.2
+        · simp [List.any_append, hx]
+        · simp [List.any_append, hx, this hx]
+      rw [e, ih]
+
+theorem group_heads_nil (ms : List Keyed) :
+    (groupsOf [] ms).filterMap (fun grp => grp.2.head?) = firstsFrom [] ms := by
+  have := group_heads ms []
+  have e : ms.filter (fun m => !([] : List Scalar).any fun v => pyEq v m.2) = ms := by simp
+  rw [e] at this; exact this
+
+/-! ## The members `unique`/`distinct` see, by the shape of the collection -/
+
+/-- The scalar value of the attribute `name` of a member, if the member is a hash having it. -/
+def attrScalar (name : Str) (n : Node) : Option Scalar :=
+  match n with
+  | .map _ es => (attrOf es name).bind Node.scalar?
+  | _ => none
+
+/-- Members of a plain list: every position with its (scalar) value. -/
+def keyedList (a : Addr) (items : List Node) (i : Nat) : List Keyed :=
+  (items.zipIdx i).filterMap (fun (n, j) => n.scalar?.map (fun v => (a ++ [.idx j], v)))
+
+/-- Members of an Array-of-Hashes: the positions of the hashes having the attribute. -/
+def keyedAoh (name : Str) (a : Addr) (items : List Node) (i : Nat) : List Keyed :=
+  (items.zipIdx i).filterMap (fun (n, j) => (attrScalar name n).map (fun v => (a ++ [.idx j], v)))
+
+/-- Members of a hash of hashes: the keys of the child hashes having the attribute. -/
+def keyedMap (name : Str) (a : Addr) (es : List (Key × Node)) : List Keyed :=
+  es.filterMap (fun (k, n) => (attrScalar name n).map (fun v => (a ++ [.key k], v)))
+
+theorem groupKey_ok {n : Node} {v : Scalar} (h : groupKey n = .ok v) : n.scalar? = some v := by
+  cases n <;> simp [groupKey] at h
+  subst h; rfl
+
+theorem groupList_eq (a : Addr) : ∀ (items : List Node) (i : Nat) (g g' : Groups),
+    groupList a g items i = .ok g' → g' = groupsOf g (keyedList a items i)
+  | [], _, g, g', h => by
+    simp only [groupList, Except.ok.injEq] at h; subst h; simp [keyedList, groupsOf]
+  | n :: rest, i, g, g', h => by
+    unfold groupList at h
+    cases hk : groupKey n with
+    | error e => simp [hk] at h
+    | ok v =>
+      simp only [hk] at h
+      have := groupList_eq a rest (i + 1) _ g' h
+      rw [this]
+      simp [keyedList, List.zipIdx_cons, groupKey_ok hk, groupsOf]
+
+theorem groupAoh_eq (name : Str) (a : Addr) : ∀ (items : List Node) (i : Nat) (g g' : Groups),
+    groupAoh name a g items i = .ok g' → g' = groupsOf g (keyedAoh name a items i)
+  | [], _, g, g', h => by
+    simp only [groupAoh, Except.ok.injEq] at h; subst h; simp [keyedAoh, groupsOf]
+  | n :: rest, i, g, g', h => by
+    unfold groupAoh at h
+    cases n with
+    | map anc es =>
+      simp only [] at h
+      cases ha : attrOf es name with
+      | none =>
+        simp only [ha] at h
+        rw [groupAoh_eq name a rest (i + 1) _ g' h]
+        simp [keyedAoh, List.zipIdx_cons, attrScalar, ha]
+      | some x =>
+        simp only [ha] at h
+        cases hk : groupKey x with
+        | error e => simp [hk] at h
+        | ok v =>
+          simp only [hk] at h
+          rw [groupAoh_eq name a rest (i + 1) _ g' h]
+          simp [keyedAoh, List.zipIdx_cons, attrScalar, ha, groupKey_ok hk, groupsOf]
+    | scalar _ _ =>
+      simp only [] at h
+      rw [groupAoh_eq name a rest (i + 1) _ g' h]; simp [keyedAoh, List.zipIdx_cons, attrScalar]
+    | seq _ _ =>
+      simp only [] at h
+      rw [groupAoh_eq name a rest (i + 1) _ g' h]; simp [keyedAoh, List.zipIdx_cons, attrScalar]
+    | set _ _ =>
+      simp only [] at h
+      rw [groupAoh_eq name a rest (i + 1) _ g' h]; simp [keyedAoh, List.zipIdx_cons, attrScalar]
+
+theorem groupMap_eq (name : Str) (inData : Bool) (a : Addr) : ∀ (es : List (Key × Node)) (g g' : Groups),
+    groupMap name inData a g es = .ok g' → g' = groupsOf g (keyedMap name a es)
+  | [], g, g', h => by
+    simp only [groupMap, Except.ok.injEq] at h; subst h; simp [keyedMap, groupsOf]
+  | (k, n) :: rest, g, g', h => by
+    unfold groupMap at h
+    cases n with
+    | map anc es =>
+      simp only [] at h
+      cases ha : attrOf es name with
+      | none =>
+        simp only [ha] at h
+        rw [groupMap_eq name inData a rest _ g' h]
+        simp [keyedMap, attrScalar, ha]
+      | some x =>
+        simp only [ha] at h
+        cases hk : groupKey x with
+        | error e => simp [hk] at h
+        | ok v =>
+          simp only [hk] at h
+          rw [groupMap_eq name inData a rest _ g' h]
+          simp [keyedMap, attrScalar, ha, groupKey_ok hk, groupsOf]
+    | scalar _ _ =>
+      simp only [] at h
+      cases inData <;> simp at h
+      rw [groupMap_eq name false a rest _ g' h]; simp [keyedMap, attrScalar]
+    | seq _ _ =>
+      simp only [] at h
+      cases inData <;> simp at h
+      rw [groupMap_eq name false a rest _ g' h]; simp [keyedMap, attrScalar]
+    | set _ _ =>
+      simp only [] at h
+      cases inData <;> simp at h
+      rw [groupMap_eq name false a rest _ g' h]; simp [keyedMap, attrScalar]
+
+/-- A plain list of scalars is always grouped (no unhashable member). -/
+theorem groupList_scalars (a : Addr) : ∀ (items : List Node) (i : Nat) (g : Groups),
+    (∀ n ∈ items, n.isScalar = true) → groupList a g items i = .ok (groupsOf g (keyedList a items i))
+  | [], _, g, _ => by simp [groupList, keyedList, groupsOf]
+  | n :: rest, i, g, h => by
+    have hn := h n (by simp)
+    cases n with
+    | scalar anc v =>
+      unfold groupList
+      simp only [groupKey]
+      rw [groupList_scalars a rest (i + 1) _ (fun n' hn' => h n' (by simp [hn']))]
+      simp [keyedList, List.zipIdx_cons, Node.scalar?, groupsOf]
+    | seq _ _ => simp [Node.isScalar] at hn
+    | map _ _ => simp [Node.isScalar] at hn
+    | set _ _ => simp [Node.isScalar] at hn
+
+/-! ## The order the `max`/`min` loops decide on values of one kind -/
+
+/-- `≤` on scalars of the same kind: numeric on ints, on floats (exact decimals), `False ≤ True` on
+Booleans, by code point on everything else (`str()` of the value). -/
+def valLe : Scalar → Scalar → Bool
+  | .int i, .int j => i ≤ j
+  | .float m1 e1, .float m2 e2 => decLe m1 e1 m2 e2
+  | .bool a, .bool b => !a || b
+  | x, y => strLe (pyStr x) (pyStr y)
+
+def valGe (x y : Scalar) : Bool := valLe y x
+
+/-- A value that `typed_value` leaves as text: a string that is not a Python literal. -/
+def IsText (v : Scalar) : Prop := typedOfScalar v = .text (pyStr v)
+
+/-- All values are ints, or all floats, or all Booleans, or all non-literal text. -/
+inductive SameKind (vals : List Scalar) : Prop
+  | ints (h : ∀ v ∈ vals, ∃ i, v = .int i)
+  | floats (h : ∀ v ∈ vals, ∃ m e, v = .float m e)
+  | bools (h : ∀ v ∈ vals, ∃ b, v = .bool b)
+  | texts (h : ∀ v ∈ vals, IsText v)
+
+/-- What the two loops need of `valLe` on the values satisfying `P`. -/
+structure KindOrder (P : Scalar → Prop) : Prop where
+  total : ∀ x y, P x → P y → valLe x y = true ∨ valLe y x = true
+  trans : ∀ x y z, P x → P y → P z → valLe x y = true → valLe y z = true → valLe x z = true
+  gt : ∀ x b, P x → P b → searchMatchesScalar noRx .gt x b = .ok (!valLe x b)
+  lt : ∀ x b, P x → P b → searchMatchesScalar noRx .lt x b = .ok (!valLe b x)
+  eq : ∀ x b, P x → P b → searchMatchesScalar noRx .equals x b = .ok (valLe x b && valLe b x)
+
+theorem gt_int (i j : Int) : searchMatchesScalar noRx .gt (.int i) (.int j) = .ok (!decide (i ≤ j)) := by
+  have : (compare i j == Ordering.gt) = !decide (i ≤ j) := by
+    rw [Bool.eq_iff_iff]; simp [Int.compare_eq_gt]
+  simp [searchMatchesScalar, searchTyped, typedOfScalar, orderLadder, Typed.ordNum?, decCmp, this]
+
+theorem lt_int (i j : Int) : searchMatchesScalar noRx .lt (.int i) (.int j) = .ok (!decide (j ≤ i)) := by
+  have : (compare i j == Ordering.lt) = !decide (j ≤ i) := by
+    rw [Bool.eq_iff_iff]; simp [Int.compare_eq_lt]
+  simp [searchMatchesScalar, searchTyped, typedOfScalar, orderLadder, Typed.ordNum?, decCmp, this]
+
+theorem eq_int (i j : Int) :
+    searchMatchesScalar noRx .equals (.int i) (.int j) = .ok (decide (i ≤ j) && decide (j ≤ i)) := by
+  have : (i == j) = (decide (i ≤ j) && decide (j ≤ i)) := by
+    rw [Bool.eq_iff_iff]; simp; omega
+  simp [searchMatchesScalar, searchTyped, typedOfScalar, this]
+
+theorem kindOrder_int : KindOrder (fun v => ∃ i, v = .int i) := by
+  refine ⟨?_, ?_, ?_, ?_, ?_⟩
+  · rintro _ _ ⟨i, rfl⟩ ⟨j, rfl⟩; simp only [valLe, decide_eq_true_eq]; omega
+  · rintro _ _ _ ⟨i, rfl⟩ ⟨j, rfl⟩ ⟨k, rfl⟩; simp only [valLe, decide_eq_true_eq]; omega
+  · rintro _ _ ⟨i, rfl⟩ ⟨j, rfl⟩; simp [gt_int, valLe]
+  · rintro _ _ ⟨i, rfl⟩ ⟨j, rfl⟩; simp [lt_int, valLe]
+  · rintro _ _ ⟨i, rfl⟩ ⟨j, rfl⟩; simp [eq_int, valLe]
+
+theorem kindOrder_float : KindOrder (fun v => ∃ m e, v = .float m e) := by
+  refine ⟨?_, ?_, ?_, ?_, ?_⟩
+  · rintro _ _ ⟨m1, e1, rfl⟩ ⟨m2, e2, rfl⟩; exact decLe_total m1 e1 m2 e2
+  · rintro _ _ _ ⟨m1, e1, rfl⟩ ⟨m2, e2, rfl⟩ ⟨m3, e3, rfl⟩; exact decLe_trans m1 e1 m2 e2 m3 e3
+  · rintro _ _ ⟨m1, e1, rfl⟩ ⟨m2, e2, rfl⟩
+    simp [searchMatchesScalar, searchTyped, typedOfScalar, orderLadder, Typed.ordNum?, valLe, decCmp_gt_eq]
+  · rintro _ _ ⟨m1, e1, rfl⟩ ⟨m2, e2, rfl⟩
+    simp [searchMatchesScalar, searchTyped, typedOfScalar, orderLadder, Typed.ordNum?, valLe, decCmp_lt_eq]
+  · rintro _ _ ⟨m1, e1, rfl⟩ ⟨m2, e2, rfl⟩
+    simp [searchMatchesScalar, searchTyped, typedOfScalar, valLe, decCmp_eq_eq]
+
+theorem kindOrder_bool : KindOrder (fun v => ∃ b, v = .bool b) := by
+  refine ⟨?_, ?_, ?_, ?_, ?_⟩
+  · rintro _ _ ⟨a, rfl⟩ ⟨b, rfl⟩; cases a <;> cases b <;> simp [valLe]
+  · rintro _ _ _ ⟨a, rfl⟩ ⟨b, rfl⟩ ⟨c, rfl⟩; cases a <;> cases b <;> cases c <;> simp [valLe]
+  · rintro _ _ ⟨a, rfl⟩ ⟨b, rfl⟩; cases a <;> cases b <;> decide
+  · rintro _ _ ⟨a, rfl⟩ ⟨b, rfl⟩; cases a <;> cases b <;> decide
+  · rintro _ _ ⟨a, rfl⟩ ⟨b, rfl⟩; cases a <;> cases b <;> decide
+
+theorem valLe_text {x y : Scalar} (hx : IsText x) (hy : IsText y) : valLe x y = strLe (pyStr x) (pyStr y) := by
+  cases x <;> cases y <;> first | rfl | (simp [IsText, typedOfScalar] at hx hy)
+
+theorem kindOrder_text : KindOrder IsText := by
+  refine ⟨?_, ?_, ?_, ?_, ?_⟩
+  · intro x y hx hy; rw [valLe_text hx hy, valLe_text hy hx]; exact strLe_total _ _
+  · intro x y z hx hy hz; rw [valLe_text hx hy, valLe_text hy hz, valLe_text hx hz]; exact strLe_trans _ _ _
+  · intro x b hx hb
+    rw [valLe_text hx hb]
+    unfold IsText at hx hb
+    simp [searchMatchesScalar, searchTyped, hx, hb, orderLadder, strLe]
+  · intro x b hx hb
+    rw [valLe_text hb hx]
+    unfold IsText at hx hb
+    simp [searchMatchesScalar, searchTyped, hx, hb, orderLadder, strLe]
+  · intro x b hx hb
+    rw [valLe_text hx hb, valLe_text hb hx, ← strLe_antisymm_iff]
+    unfold IsText at hx hb
+    simp [searchMatchesScalar, searchTyped, hx, hb]
+
+theorem sameKind_order {vals : List Scalar} (h : SameKind vals) :
+    ∃ P : Scalar → Prop, KindOrder P ∧ ∀ v ∈ vals, P v := by
+  cases h with
+  | ints h => exact ⟨_, kindOrder_int, h⟩
+  | floats h => exact ⟨_, kindOrder_float, h⟩
+  | bools h => exact ⟨_, kindOrder_bool, h⟩
+  | texts h => exact ⟨_, kindOrder_text, h⟩
+
+/-- Values of one kind meet the hypothesis of the `max` scan with `valLe` … -/
+theorem scanOrder_max_of_sameKind {vals : List Scalar} (h : SameKind vals) : ScanOrder .gt valLe vals := by
+  obtain ⟨P, ko, hP⟩ := sameKind_order h
+  exact ⟨fun x hx y hy => ko.total x y (hP x hx) (hP y hy),
+         fun x hx y hy z hz => ko.trans x y z (hP x hx) (hP y hy) (hP z hz),
+         fun x hx b hb => ko.gt x b (hP x hx) (hP b hb),
+         fun x hx b hb => ko.eq x b (hP x hx) (hP b hb)⟩
+
+/-- … and of the `min` scan with the reversed order. -/
+theorem scanOrder_min_of_sameKind {vals : List Scalar} (h : SameKind vals) : ScanOrder .lt valGe vals := by
+  obtain ⟨P, ko, hP⟩ := sameKind_order h
+  refine ⟨fun x hx y hy => ?_, fun x hx y hy z hz h1 h2 => ?_, fun x hx b hb => ?_, fun x hx b hb => ?_⟩
+  · exact (ko.total x y (hP x hx) (hP y hy)).symm
+  · exact ko.trans z y x (hP z hz) (hP y hy) (hP x hx) h2 h1
+  · exact ko.lt x b (hP x hx) (hP b hb)
+  · unfold valGe; rw [Bool.and_comm]; exact ko.eq x b (hP x hx) (hP b hb)
 
 end Ypv
